@@ -230,6 +230,8 @@ func ErrKind(err error) string {
 		return "eof"
 	case strings.Contains(s, "not enough good public shares"):
 		return "few"
+	case strings.Contains(s, "threshold smaller than the threshold of the public polynomial"):
+		return "threshold"
 	case strings.Contains(s, "bn256.G1"):
 		return "decode"
 	case strings.Contains(s, "invalid signature"):
